@@ -1220,6 +1220,25 @@ func (c *ivCtx) discharge(fn *ssa.Function, b *ssa.BasicBlock, reqs []ivReq, int
 	return nil, strings.Join(names, ", ")
 }
 
+func newIvCtx(w *World) *ivCtx {
+	return &ivCtx{w: w, ix: &ixCtx{w: w, pure: map[*ssa.Function]int8{}, predSumm: map[*ssa.Function]map[string]int{}, inProg: map[*ssa.Function]bool{}}, summ: map[*ssa.Function]*ivSummary{}, inProg: map[*ssa.Function]bool{}, fieldNN: map[string]bool{}, eqLen: map[*ssa.Function][][2]int{}, stable: map[string]bool{}}
+}
+
+// satisfiable: the difference constraints have a solution (no negative cycle).
+func ivSatisfiable(cons []ivCons) bool {
+	g := newIvGraph()
+	for _, k := range cons {
+		g.add(k.x, k.y, k.c)
+	}
+	g.close()
+	for i := range g.d {
+		if g.d[i][i] < 0 {
+			return false
+		}
+	}
+	return true
+}
+
 func engineIV(w *World, tier string) *EngineResult {
 	r := newResult("IV", "every index / slice expression on a slice or string whose position is not a constant is in bounds: 0 ≤ i < len, 0 ≤ low ≤ high ≤ len follow — by shortest paths in a difference-constraint graph — from the branch edges that dominate the site, from summaries of boolean helper functions (constraints over their parameters per result value), from structural facts (counters that only grow, lengths of made / re-sliced / step-wise appended slices), or from the same facts at every static caller when the missing part is stated over parameters")
 	c := &ivCtx{w: w, ix: &ixCtx{w: w, pure: map[*ssa.Function]int8{}, predSumm: map[*ssa.Function]map[string]int{}, inProg: map[*ssa.Function]bool{}}, summ: map[*ssa.Function]*ivSummary{}, inProg: map[*ssa.Function]bool{}, fieldNN: map[string]bool{}, eqLen: map[*ssa.Function][][2]int{}, stable: map[string]bool{}}
